@@ -424,11 +424,17 @@ pub fn gen_pe_func(p: &mut Prng, begin: u32, n_calls: usize, is_root: bool) -> P
     }
     let n_body = 2 + p.below(3) as usize;
     for i in 0..n_body.max(n_calls) {
-        let b: Vec<u8> = p.pick(&[vec![0x90u8], vec![0x48, 0x89, 0xc3], vec![0x31, 0xc0]]).clone();
+        // (some of these start with a byte in 0x20..0x2f: after a call whose last byte is 0xff the
+        // bytes at return address - 1 read `ff 2x`, which looks like an indirect jmp)
+        let b: Vec<u8> = p
+            .pick(&[vec![0x90u8], vec![0x48, 0x89, 0xc3], vec![0x31, 0xc0], vec![0x2b, 0xc1], vec![0x25, 0xff, 0, 0, 0], vec![0x28, 0xc8], vec![0x2d, 1, 0, 0, 0]])
+            .clone();
         insns.push(ins(&b, PeEff::None));
         if i < n_calls {
             calls.push(insns.len());
-            insns.push(ins(&[0xe8, 0x10, 0, 0, 0], PeEff::Call));
+            // forward, backward (last byte 0xff), register-indirect and rip-relative calls
+            let c: Vec<u8> = p.pick(&[vec![0xe8u8, 0x10, 0, 0, 0], vec![0xe8, 0xf0, 0xff, 0xff, 0xff], vec![0xff, 0xd0], vec![0xff, 0x15, 0x10, 0, 0, 0]]).clone();
+            insns.push(ins(&c, PeEff::Call));
         }
     }
     insns.push(ins(&[0x90], PeEff::None));
@@ -918,6 +924,7 @@ pub fn run(tier: &str, seed: u64) -> Report {
                 });
             }
             crate::hist::fresh_cache_twin(rep, w, &op, &ans, || format!("{}\n{line}", lines.join("\n")));
+            crate::hist::step_oracles(rep, &op, &obs, &ans, || format!("{}\n{line}", lines.join("\n")));
             lines.push(line);
             cmds.push(cmd);
             impl_outs.push(ans.clone());
